@@ -42,14 +42,16 @@ inline std::string symbolizePc( void* pc)
 inline std::string symbolizeAccess( void* const* pcs, int n)
 {
    std::string  first = symbolizePc( n > 0 ? pcs[ 0] : nullptr);
-   if (first.find( "<null>") == std::string::npos && first.find( "__interceptor") == std::string::npos)
+   if (first.find( "<null>") == std::string::npos && first.find( "__interceptor") == std::string::npos
+       && first.find( "tsan_glue") == std::string::npos)
       return first;
    for (int k = 1; k < n; ++k)
    {
       if (pcs[ k] == nullptr) break;
       // return addresses: the call is one instruction before
       std::string  s = symbolizePc( static_cast< char*>( pcs[ k]) - 1);
-      if (s.find( "<null>") == std::string::npos && s.find( "__interceptor") == std::string::npos)
+      if (s.find( "<null>") == std::string::npos && s.find( "__interceptor") == std::string::npos
+          && s.find( "tsan_glue") == std::string::npos)
          return first.substr( 0, first.find( ' ')) + " called from " + s;
    }
    return first;
